@@ -19,8 +19,10 @@ history.
 -/
 import TraitsVerif.Lemmas.SyncTwoSided
 import TraitsVerif.Lemmas.SyncHook
+import TraitsVerif.Lemmas.SyncLive
 namespace TraitsVerif.Props.C20
-open TraitsVerif TraitsVerif.Py TraitsVerif.Model TraitsVerif.Model.Sync
+open TraitsVerif TraitsVerif.Py TraitsVerif.Model TraitsVerif.Model.Sync TraitsVerif.Model.PyLSync
+  TraitsVerif.Model.SyncLive
 variable {α : Type}
 
 /-! ### Termination and the lock -/
@@ -439,5 +441,99 @@ example :
     (World.run idEnv fresh (history.take 6)).val a = .l [2, 4, 7] ∧
     (World.run idEnv fresh (history.take 6)).val b = .l [2, 4] ∧
     (World.run idEnv fresh (history.take 4)).val b = .l [2, 4] := by decide
+
+/-! ### The model is the source
+
+`harness/translate/syncprog.py` turns the source text of
+`HasTraits._sync_trait_modified` and `HasTraits._sync_trait_items_modified` into
+the `PyLSync` programs of `Generated/SyncProg.lean` on every run. -/
+
+/-- The handler program the notification of a payload runs. -/
+def progOf : Payload α → Stmt
+  | .new _ => Generated.SyncProg.syncTraitModified
+  | .event _ => Generated.SyncProg.syncTraitItemsModified
+
+/-- **The handlers are the source.** For every state (any tables, locks, armed
+triggers, collected objects), every trait, every payload and every meaning of
+the nested `setattr` / list call, the hand-written handlers of
+`Model/SyncLive.lean` compute exactly what the interpreter computes on the
+programs generated from the source text: same final state, same escaping
+exception. -/
+theorem C20_handlers_are_source (rec : Rec α) (k : KWorld α) (p : Pair) (pl : Payload α) :
+    runHandlerK rec k p pl = runHandler rec (progOf pl) k p pl := by
+  cases pl with
+  | new v => exact handlerModified_is_source rec k p v
+  | event e => exact handlerItems_is_source rec k p e
+
+/-- **One step is the source** (`C20_step_is_source` pattern): a `setattr` /
+list-method call with everything it triggers is: the change on the trait itself,
+the recording handlers (which may drop the last reference to a partner), then the
+*interpretation of the generated handler program*, nested calls being the same
+function one level down. -/
+theorem C20_step_is_source [DecidableEq α] (E : Sync.Env α) (d : Nat) (k : KWorld α) (p : Pair) (req : Req α) :
+    cascadeK E (d + 1) k p req =
+      match applyK E k.w p req with
+      | .error e => .error e
+      | .ok (w1, r, pay) =>
+        let k1 : KWorld α := if notified k.w w1 p then fire { k with w := w1 } p else { k with w := w1 }
+        match pay with
+        | none => .ok (k1, r)
+        | some pl => .ok (swallow (runHandler (cascadeK E d) (progOf pl) k1 p pl), r) := by
+  rw [cascadeK]
+  cases applyK E k.w p req with
+  | error e => rfl
+  | ok x =>
+    obtain ⟨w1, r, pay⟩ := x
+    cases pay with
+    | none => rfl
+    | some pl => simp only [C20_handlers_are_source]
+
+/-- **`Model.Sync` is the source.** On every state without armed triggers in
+which no table lists a collected object (every state a history of `Model.Sync`
+commands reaches), for every depth budget, the propagation function all
+theorems above are about — `Sync.cascade` — is `cascadeK`, i.e. by
+`C20_step_is_source` the interpretation of the generated programs. -/
+theorem C20_model_is_source [DecidableEq α] (E : Sync.Env α) (d : Nat) (k : KWorld α) (p : Pair) (hq : Quiet k) :
+    (∀ v, cascadeK E d k p (.assign v) = lift k (cascade (applyAssign E) d k.w p v)) ∧
+    (∀ op, cascadeK E d k p (.mutate op) = lift k (cascade (applyMutate E) d k.w p op)) :=
+  ⟨fun v => cascadeK_assign E d k p v hq, fun op => cascadeK_mutate E d k p op hq⟩
+
+/-! ### Partner death during a propagation (known finding F97) -/
+
+/-- The statement at full strength: `C20_lock_released` for histories in which a
+change handler of one partner drops the last reference to another partner. -/
+def C20_lock_released_full : Prop :=
+  ∀ (E : Sync.Env Int) (k : KWorld Int) (cs : List (CmdK Int)), k.w.locked = [] → (runK E k cs).w.locked = []
+
+/-- `a.sync_trait('y', c, mutual=False); a.sync_trait('y', b)`; a handler on `b.y`
+drops the last reference to `c`; `a.y = 9`. -/
+def dyingPartner : List (CmdK Int) :=
+  [.cmd (.link (0, "y") (2, "y") false), .cmd (.link (0, "y") (1, "y") true), .arm (1, "y") 2,
+   .cmd (.assign (0, "y") (.s 9))]
+
+/-- **Negation witness (known finding F97).** The handler iterates the live dict
+`info[name].values()`; the partner's death shrinks it, the next step of the loop
+raises `RuntimeError` out of the handler, and `del locked[name]` is never
+reached: the lock of `a.y` stays set — and a later change of the mutual partner
+`b.y` no longer reaches `a.y`.  Replayed on the implementation by corpus and
+generated cases (`kd`). -/
+theorem C20_lock_stuck_when_partner_dies_mid_loop : ¬ C20_lock_released_full := by
+  intro h
+  have := h idEnv { w := fresh } dyingPartner rfl
+  revert this
+  decide
+
+/-- What the model (and the implementation) computes on the witness. -/
+theorem C20_dying_partner_outcome :
+    (runK idEnv { w := fresh } dyingPartner).w.locked = [(0, "y")] ∧
+    (runK idEnv { w := fresh } dyingPartner).swallowed = 1 ∧
+    (runK idEnv { w := fresh } dyingPartner).dead = [2] ∧
+    (runK idEnv { w := fresh } (dyingPartner ++ [.cmd (.assign (1, "y") (.s 5))])).w.val (0, "y") = .s 9 := by
+  decide
+
+/-- Non-vacuity of `C20_model_is_source`: the state before the trigger is armed is
+`Quiet`, and there the witness's assignment is `Sync.cascade`'s. -/
+example : Quiet (runK idEnv { w := fresh } (dyingPartner.take 2)) :=
+  ⟨rfl, by decide⟩
 
 end TraitsVerif.Props.C20
